@@ -61,6 +61,14 @@ func (w *driveWorld) runSparse(maxN int) {
 	for j := 0; j < 6; j++ {
 		remember[w.rng.Intn(n0)] = true
 	}
+	// about two hundred remembered leaves in another part of the forest, to be pruned in one call later
+	var many []int
+	for s := 0; s < n0 && len(many) < 200; s++ {
+		if (s < lo-2 || s >= lo+sz+2) && s%2 == 1 && !remember[s] {
+			many = append(many, s)
+			remember[s] = true
+		}
+	}
 	rem := func(s int) bool { return remember[s] || s >= n0 && s%5 == 0 }
 	step := func(d []int, k int) bool {
 		w.script = &scriptedBlock{d: d, k: k, rem: rem, light: true}
@@ -115,6 +123,33 @@ func (w *driveWorld) runSparse(maxN int) {
 		w.observeSparse()
 		if len(w.fails) > 0 || !step(nil, k) {
 			return
+		}
+		// 4b. one Prune call for about two hundred remembered leaves (and a hash that is not remembered)
+		{
+			var ps []int
+			for _, s := range many {
+				if w.live[s] {
+					ps = append(ps, s)
+				}
+			}
+			if len(ps) > 0 {
+				ps = append(ps, n0-2)
+				for _, in := range w.insts {
+					if in.Kind != KMapPart {
+						continue
+					}
+					if err := in.M.Prune(w.hashes(ps)); err != nil {
+						w.fail([]string{"C09"}, in.Name, "error", fmt.Sprintf("Prune of %d hashes failed: %v", len(ps), err))
+						return
+					}
+					w.calls++
+					w.pop(in, "prune", ps)
+				}
+				w.observeSparse()
+				if len(w.fails) > 0 {
+					return
+				}
+			}
 		}
 		// 5. some remembered leaves go
 		d = w.someCached(3)
